@@ -13,7 +13,7 @@ def run(ctx):
                 "sources-only solve; non-trivial = N>=2 on some axis and non-constant coefficients")
     ctx.prove("C06")
     from suites import symsuite
-    run_suites(ctx, ["symbolic"], runner=symsuite.run_suite, relevant=symsuite.relevant_for(['diffusion', 'central', 'upwind']))
+    run_suites(ctx, ["symbolic"], runner=symsuite.run_suite, relevant=symsuite.relevant_for(['diffusion', 'central', 'upwind', 'tvd', 'tvdfsarg']))
     run_suites(ctx, SUITES)
     try:
         n = probes.probe_c06(ctx, pf)
